@@ -209,6 +209,23 @@ static void dump_text(const unsigned char *p, long len)
     if (!p) { putchar('N'); return; }
     lv_puthex(p, (size_t) len);
 }
+/* what a regexp object MATCHES: one character per probe subject, through both matching entry points
+   ('X' when they disagree).  The probes are chosen so that every compile flag decides at least one of
+   them for some pattern of the generators (caseless: "A"/"AB"/"ZZX"; multiline: "a\nb", "c\nB";
+   dotall: "a\nb"; extended: "ab" vs "a b"; utf8: the two-byte "\xc3\xa9"). */
+#define LV_NPROBE 12
+static const char *lv_probe[LV_NPROBE] = { "a", "A", "ab", "AB", "a b", "a\nb", "zzx", "ZZX", "b", "\xc3\xa9", "", "c\nB" };
+static void dump_re_sig(spif_regexp_t re)
+{
+    int i;
+    for (i = 0; i < LV_NPROBE; i++) {
+        spif_str_t subj = spif_str_new_from_ptr((spif_charptr_t) lv_probe[i]);
+        int a = spif_regexp_matches_ptr(re, (spif_charptr_t) lv_probe[i]) ? 1 : 0;
+        int b = spif_regexp_matches_str(re, subj) ? 1 : 0;
+        spif_str_del(subj);
+        putchar(a == b ? '0' + a : 'X');
+    }
+}
 static void dump_obj(spif_obj_t o);
 static void dump_cont(spif_obj_t o, int k)
 {
@@ -257,7 +274,8 @@ static void dump_obj(spif_obj_t o)
         }
         case K_RE:
             printf("r:"); dump_text((unsigned char *) SPIF_STR(o)->s, (long) SPIF_STR(o)->len);
-            printf(":%d", ((spif_regexp_t) o)->flags);
+            printf(":%d:", ((spif_regexp_t) o)->flags);
+            dump_re_sig((spif_regexp_t) o);
             break;
         case K_IA: case K_IL: case K_ID: putchar('i'); putchar("ald"[cls_of(k)]); break;
         default:
@@ -542,6 +560,31 @@ static void run_op(int n, char **t)
         if (!is_map(hk[m]) || m == a || m == b || !storable(hk[a]) || !storable(hk[b])) { fault("Abort"); return; }
         putchar(SPIF_MAP_SET(SPIF_MAP(hp[m]), SPIF_OBJ(hp[a]), SPIF_OBJ(hp[b])) ? '1' : '0');
     }
+    else if (IS("msetp")) {
+        /* the pair form: SPIF_MAP_SET(map, pair, NULL) */
+        int m; spif_objpair_t pr;
+        NEED(2); if (!held(t[1], &m) || !held(t[2], &a)) return;
+        if (!is_map(hk[m]) || m == a || hk[a] != K_PAIR) { fault("Abort"); return; }
+        pr = SPIF_OBJPAIR(hp[a]);
+        if (!pr->key || !pr->value) { fault("Abort"); return; }      /* objpair_new_from_both ASSERTs both */
+        putchar(SPIF_MAP_SET(SPIF_MAP(hp[m]), SPIF_OBJ(pr), (spif_obj_t) NULL) ? '1' : '0');
+    }
+    else if (IS("msetown") || IS("msetownp")) {
+        /* the map's own stored value / own stored entry passed back to set; the entry is found as set
+           itself finds it (first entry equal to the key, in iteration order) */
+        int m; spif_iterator_t it; spif_obj_t e = NULL;
+        NEED(2); if (!held(t[1], &m) || !held(t[2], &a)) return;
+        if (!is_map(hk[m]) || m == a) { fault("Abort"); return; }
+        it = SPIF_MAP_ITERATOR(SPIF_MAP(hp[m]));
+        while (SPIF_ITERATOR_HAS_NEXT(it)) {
+            spif_obj_t x = SPIF_ITERATOR_NEXT(it);
+            if (SPIF_CMP_IS_EQUAL(SPIF_OBJ_COMP(x, SPIF_OBJ(hp[a])))) { e = x; break; }
+        }
+        SPIF_ITERATOR_DEL(it);
+        if (!e) putchar('0');
+        else if (IS("msetownp")) putchar(SPIF_MAP_SET(SPIF_MAP(hp[m]), e, (spif_obj_t) NULL) ? '1' : '0');
+        else putchar(SPIF_MAP_SET(SPIF_MAP(hp[m]), SPIF_OBJ(hp[a]), SPIF_OBJPAIR(e)->value) ? '1' : '0');
+    }
     else if (IS("mkeys") || IS("mvalues") || IS("mpairs")) {
         int m; spif_list_t dst, r;
         NEED(2); if (!held(t[1], &m)) return;
@@ -573,6 +616,28 @@ static void run_op(int n, char **t)
         hsubj[hn] = c;
         hand_back_obj(SPIF_OBJ(r));
     }
+    else if (IS("query")) {
+        /* every query that hands out a number or a borrowed pointer, with the object under h as probe:
+           nothing may be allocated, freed or changed (the ledger and the later read-backs show it) */
+        spif_obj_t pr; long i, cnt; volatile unsigned long sink = 0;
+        NEED(2); if (!held(t[1], &c) || !held(t[2], &a)) return;
+        if (!is_cont(hk[c]) || c == a || !storable(hk[a])) { fault("Abort"); return; }
+        pr = SPIF_OBJ(hp[a]);
+        if (is_list(hk[c])) {
+            spif_list_t l = SPIF_LIST(hp[c]);
+            cnt = (long) SPIF_LIST_COUNT(l);
+            for (i = -cnt - 1; i <= cnt; i++) sink += (unsigned long) (size_t) SPIF_LIST_GET(l, (spif_listidx_t) i);
+            sink += SPIF_LIST_CONTAINS(l, pr) + (unsigned long) (size_t) SPIF_LIST_FIND(l, pr) + (unsigned long) SPIF_LIST_INDEX(l, pr);
+        } else if (is_vector(hk[c])) {
+            spif_vector_t v = SPIF_VECTOR(hp[c]);
+            sink += SPIF_VECTOR_COUNT(v) + SPIF_VECTOR_CONTAINS(v, pr) + (unsigned long) (size_t) SPIF_VECTOR_FIND(v, pr);
+        } else {
+            spif_map_t m = SPIF_MAP(hp[c]);
+            sink += SPIF_MAP_COUNT(m) + (unsigned long) (size_t) SPIF_MAP_GET(m, pr) + SPIF_MAP_HAS_KEY(m, pr) + SPIF_MAP_HAS_VALUE(m, pr);
+        }
+        (void) sink;
+        printf("ok");
+    }
     else if (IS("far")) {
         NEED(0);
 #ifdef LV_BUMP
@@ -581,11 +646,14 @@ static void run_op(int n, char **t)
         printf("ok");
     }
     else if (IS("calib")) {
-        /* calib <pattern hex|N> <flag bits>: blocks pcre_compile leaves allocated */
-        char *s; const char *err; int off; long before; pcre *re;
+        /* calib <pattern hex|N> <flag bits>: blocks pcre_compile leaves allocated, then ':' and what the
+           compiled pattern matches among the probe subjects - straight from the pcre library */
+        char *s; const char *err; int off, i; long before; pcre *re;
         NEED(2); s = text_arg(t[1]); before = lv_live;
         re = pcre_compile(s, atoi(t[2]), &err, &off, NULL);
-        printf("%ld", lv_live - before);
+        printf("%ld:", lv_live - before);
+        for (i = 0; i < LV_NPROBE; i++)
+            putchar(re && pcre_exec(re, NULL, lv_probe[i], (int) strlen(lv_probe[i]), 0, 0, NULL, 0) >= 0 ? '1' : '0');
         if (re) pcre_free(re);
         free(s);
     }
